@@ -911,6 +911,18 @@ func gen_(c *hxlib.Ctx) {
 	for i := 0; i < 3; i++ {
 		add("bound-shape", func() *runner { return genBound(rnd, i == 2) }, nil)
 	}
+	// 3b. real service transitions on a test node (tchain.go)
+	csc := chainScenarios()
+	for _, name := range []string{"patch-window", "threshold-raise"} {
+		cases = append(cases, emitChain(c, "chain-"+name, csc[name]))
+	}
+	for i := 0; i < c.N(24); i++ {
+		cases = append(cases, emitChain(c, "chain-threshold", genChainA(rnd)))
+	}
+	for i := 0; i < c.N(14); i++ {
+		cases = append(cases, emitChain(c, "chain-patch", genChainB(rnd)))
+	}
+	cases = append(cases, emitChain(c, "chain-bound", chainBoundScenario()))
 	// 4. the window
 	for i := 0; i < c.N(300); i++ {
 		bts := []int64{0, 100, 1000, 1_700_000_000_000_000}[rnd.Intn(4)]
@@ -969,6 +981,8 @@ func replay(raw json.RawMessage) string {
 		json.Unmarshal(in.V, &w)
 		_, msg := winCase(w)
 		return msg
+	case "chain":
+		return replayChain(in.V)
 	}
 	return "unknown case type " + in.T
 }
